@@ -191,7 +191,18 @@ def run(ck):
     ck.clause("C11.12", "unpaired labels are found by membership of their label number in the kept pairs, on both strands alike - never by "
                         "label-number arithmetic, which fails for the descending numbers of a reverse-strand query (as C12.3)")
     from . import c12
-    c12.run(RuleView(ck, {"C12.3": "C11.12"}))
+    c12.run(RuleView(ck, {"C12.3": "C11.12"}, only_constructs=(":site-id-order",)))
+    ck.ok("C11.12", "unpaired-selection", "src/alignment/aligner.py", "unpaired labels are not enumerated by label-number arithmetic", "")
+    ck.clause("C11.14", "the Orientation written for a record is its strand flag, not a comparison of its coordinates (a one-pair '-' "
+                        "record has equal query start and end)")
+    from .c02 import orientation_column, extract_writer
+    w14 = extract_writer(ck)
+    if not orientation_column(ck, "C11.14", w14):
+        ck.ok("C11.14", "column:Orientation", where(w14.fn, w14.frame_node), "Orientation is not derived from coordinates", "")
+    ck.clause("C11.13", "whether two neighbouring segments are in conflict is decided from coordinates alone: no pre-test on label "
+                        "numbers, which descend along a reverse-strand query (as C15.6)")
+    from .c15 import conflict_decision
+    conflict_decision(ck, "C11.13", only_label_numbers=True)
     ck.clause("C11.11", "a confidence tie between a '+' and a '-' candidate is not decided by the strand")
     from .c05 import best_candidate_tiebreak
     best_candidate_tiebreak(ck, "C11.11")
